@@ -150,6 +150,54 @@ def run_history(job):
     return trace
 
 
+def sparse_source(scratch, idx, rng):
+    """a document whose header lists skip the empty rows / columns of default size (the way Numbers writes them): built through the API
+    with data in the top-left corner and some sizes set, saved, and the records of empty default-sized lines removed from the file"""
+    import warnings
+    warnings.simplefilter("ignore")
+    from numbers_parser import Document
+    from numbers_parser.generated import TSTArchives_pb2 as TST
+    from numbers_parser.generated.mapping import NAME_ID_MAP
+    from .. import rewrite
+    nr, nc, dr, dc = 9, 7, 4, 3
+    doc = Document(num_rows=nr, num_cols=nc)
+    tb = doc.sheets[0].tables[0]
+    for r in range(dr):
+        for c in range(dc):
+            tb.write(r, c, "r%dc%d" % (r, c))
+    for c in rng.sample(range(nc), 3):
+        tb.col_width(c, rng.choice([40, 61, 133, 200]))
+    for r in rng.sample(range(nr), 3):
+        tb.row_height(r, rng.choice([12, 31, 48, 90]))
+    path = os.path.join(scratch, "sparse-%d.numbers" % idx)
+    doc.save(path)
+    pkg = rewrite.Pkg.load(path)
+    rows_b, cols_b = set(), set()
+    for n, d in pkg.members:
+        if n.endswith(".iwa") and rewrite.iwa.is_wellformed(d):
+            for info, msgs in rewrite.decode_member(d):
+                if info.message_infos and info.message_infos[0].type == NAME_ID_MAP["TST.TableModelArchive"]:
+                    tm = TST.TableModelArchive.FromString(msgs[0])
+                    rows_b.update(x.identifier for x in tm.base_data_store.rowHeaders.buckets)
+                    cols_b.add(tm.base_data_store.columnHeaders.identifier)
+
+    def fn(b, oid):
+        first_empty = dr if oid in rows_b else dc if oid in cols_b else None
+        if first_empty is None:
+            return False
+        keep = [h for h in b.headers if h.size != 0.0 or h.index < first_empty]
+        if len(keep) == len(b.headers):
+            return False
+        hs = [TST.HeaderStorageBucket.Header.FromString(h.SerializeToString()) for h in keep]
+        del b.headers[:]
+        for h in hs:
+            b.headers.add().CopyFrom(h)
+        return True
+    n = rewrite._map_messages(pkg, "TST.HeaderStorageBucket", fn, None)
+    pkg.save_single(path)
+    return path, n
+
+
 def random_ops(rng, nr, nc, with_borders, cycles):
     ops = []
     for cyc in range(cycles):
@@ -268,20 +316,31 @@ def run(ctx):
     fx = fixtures.readable_fixtures(ctx.workers)
     if q:
         fx = [p for p in fx if any(k in os.path.basename(p) for k in ("issue-69", "test-1.", "test-formats", "test-borders", "test-table-size",
-                                                                       "test-header", "test-new-table", "issue-49", "test-5"))] or fx[:8]
+                                                                       "test-header", "test-new-table", "issue-49", "test-5", "issue-14"))] or fx[:8]
     fjobs = []
     for p in fx:
         fjobs.append(p)
     shapes = fixtures.pmap(fixture_shapes, fjobs, ctx.workers)
     k = 20000
     for p, tabs in zip(fjobs, shapes):
-        for (si, ti, nr, nc) in tabs[: (2 if q else 6)]:
+        # (issue-14 has tables whose header lists skip some rows / columns: all of its tables are taken)
+        for (si, ti, nr, nc) in tabs[: (2 if q and "issue-14" not in p else 12 if q else 40)]:
             if nr * nc > 20000 or nr == 0:
                 continue
             jobs.append((k, p, si, ti, [{"op": "save"}, {"op": "reopen"}, {"op": "save"}], ctx.scratch))
             k += 1
             jobs.append((k, p, si, ti, random_ops(rng, nr, nc, False, 2), ctx.scratch))
             k += 1
+    # documents whose header lists skip the default-sized rows / columns (sizes that came from the source, queried or not)
+    nsparse = 0
+    for i in range(4 if q else 40):
+        sp, changed = sparse_source(ctx.scratch, i, rng)
+        if changed:
+            nsparse += 1
+            jobs.append((k, sp, 0, 0, [{"op": "save"}, {"op": "reopen"}, {"op": "save"}], ctx.scratch))
+            jobs.append((k + 1, sp, 0, 0, random_ops(rng, 9, 7, False, 2), ctx.scratch))
+            k += 2
+    ctx.extra["sparse_header_documents"] = nsparse
     ctx.extra["histories"] = {"from_mechanism_spec": n_mech, "mechanism_states_with_hist": nstates, "total": len(jobs)}
     ctx.stage("record")
     # documents with three tables (one added to the sheet, one on an added sheet): the history runs on one of them, a second one is watched
